@@ -1,9 +1,12 @@
 package netx
 
 import (
+	"encoding/hex"
+	"encoding/json"
 	"fmt"
 	"hash/fnv"
 	"net"
+	"os"
 	"regexp"
 	"sort"
 	"strings"
@@ -27,10 +30,20 @@ const maxio = 1 << 20 // the documented message limit (1 MB)
 type rowv struct {
 	K    int
 	A    int
-	B    string // packed scalar
+	B    bin    // packed scalar
 	BStr string // rendering of B
 	CLen int    // c is a derived string of this length
 	Seed int
+}
+
+// bin is a byte string that survives JSON (journal files) as hex.
+type bin string
+
+func (b bin) MarshalText() ([]byte, error) { return []byte(hex.EncodeToString([]byte(b))), nil }
+func (b *bin) UnmarshalText(t []byte) error {
+	d, err := hex.DecodeString(string(t))
+	*b = bin(d)
+	return err
 }
 
 func (r rowv) String() string {
@@ -135,7 +148,7 @@ func genSize(t *rapid.T, label string) int {
 
 func genRow(t *rapid.T, k int) rowv {
 	b := gen.ScalarMV().Draw(t, "b")
-	return rowv{K: k, A: rapid.IntRange(0, 4).Draw(t, "a"), B: core.PackValue(b.V), BStr: b.String(),
+	return rowv{K: k, A: rapid.IntRange(0, 4).Draw(t, "a"), B: bin(core.PackValue(b.V)), BStr: b.String(),
 		CLen: genSize(t, "clen"), Seed: rapid.IntRange(0, 255).Draw(t, "seed")}
 }
 
@@ -252,7 +265,7 @@ func genScript(t *rapid.T) []op {
 			o.S = gen.Pick(t, "fn", []string{"Object", "Max", "Type", "Display", "Nosuch", "Object.Nosuch", "String"})
 			o.N = genSize(t, "len")
 			v := gen.ScalarMV().Draw(t, "v")
-			o.Row = rowv{B: core.PackValue(v.V), BStr: v.String(), Seed: i}
+			o.Row = rowv{B: bin(core.PackValue(v.V)), BStr: v.String(), Seed: i}
 		case "libput":
 			// a library record, so that LibGet has something (large) to send
 			o.K = "action"
@@ -291,6 +304,11 @@ type tranH struct {
 	t      core.ITran
 	update bool
 	serial int // creation order: the same on both sides
+	// gone: offsets this transaction has already deleted or replaced. A second
+	// delete of a row that was output in the same transaction is not refused
+	// by the database and breaks its index merge (reported separately);
+	// the scripts stay clear of it.
+	gone map[uint64]bool
 }
 
 type queryH struct {
@@ -330,8 +348,9 @@ type side struct {
 	barrier func()
 	active  func() []int // the served database's active update transactions (read directly)
 	// involved is the serial of the transaction the current request used (0 = none)
-	involved int
-	ntrans   int
+	involved  int
+	ntrans    int
+	oneUpdate bool
 }
 
 var tranNumRx = regexp.MustCompile(`\b([ur]t)\d+\b`)
@@ -388,7 +407,7 @@ func (s *side) buildRec(fields []string, r rowv) core.Record {
 		case "a", "aa":
 			rb.Add(core.IntVal(r.A))
 		case "b", "bb", "d":
-			rb.AddRaw(r.B)
+			rb.AddRaw(string(r.B))
 		case "c":
 			rb.Add(core.SuStr(bigStr(r.CLen, r.Seed)))
 		default: // "-" (deleted) and columns added later
@@ -492,6 +511,18 @@ func (s *side) exec1(o op) string {
 		d.Admin(o.S, s.sv)
 		return "ok"
 	case "tran":
+		if o.B && s.oneUpdate {
+			// Overlapping update transactions that conflict are resolved by
+			// the database in an order that depends on Go map iteration and
+			// goroutine timing (a different loser per run): a differential
+			// needs a deterministic database, so the script keeps at most one
+			// update transaction open (any number of read-only ones).
+			for _, t := range s.trans {
+				if t.update {
+					return skip
+				}
+			}
+		}
 		s.ntrans++
 		t := d.Transaction(o.B)
 		s.trans = append(s.trans, &tranH{t: t, update: o.B, serial: s.ntrans})
@@ -614,12 +645,16 @@ func (s *side) exec1(o op) string {
 		}
 		off := q.last[0].Off
 		tbl := q.tbl
-		if tbl == "" || off == 0 {
+		if tbl == "" || off == 0 || q.tran.gone[off] {
 			// not updateable: the callers (SuRecord.Update/Delete) refuse
 			// before anything reaches the dbms interface
 			return skip
 		}
 		q.last = nil
+		if q.tran.gone == nil {
+			q.tran.gone = map[uint64]bool{}
+		}
+		q.tran.gone[off] = true
 		if o.K == "erase" {
 			q.tran.t.Delete(th, tbl, off)
 			return "ok"
@@ -631,6 +666,11 @@ func (s *side) exec1(o op) string {
 		t := pickT()
 		if t == nil {
 			return skip
+		}
+		for _, q := range s.qs {
+			if q.tran == t {
+				q.last = nil // the action may delete the row (see tranH.gone)
+			}
 		}
 		return fmt.Sprint("action ", t.t.Action(th, o.S))
 	case "getone":
@@ -698,8 +738,10 @@ func (s *side) exec1(o op) string {
 		}
 		return "libget " + sb.String()
 	case "log":
+		n0, _ := logCap.marked()
 		d.Log(o.S)
-		return fmt.Sprint("log ", logCap.logged(o.S[:min(len(o.S), 40)]))
+		n1, last := logCap.marked()
+		return fmt.Sprint("log lines ", n1-n0, " ", strings.HasSuffix(last, strings.TrimSpace(o.S)))
 	case "nonce":
 		return fmt.Sprint("nonce ", len(d.Nonce(th)))
 	case "token":
@@ -767,9 +809,9 @@ func (s *side) exec1(o op) string {
 	case "run":
 		return "run " + valStr(d.Run(th, o.S))
 	case "exec":
-		ob := core.SuObjectOf(core.SuStr(o.S), core.Unpack(o.Row.B), core.SuStr(bigStr(o.N, o.Row.Seed)))
+		ob := core.SuObjectOf(core.SuStr(o.S), core.Unpack(string(o.Row.B)), core.SuStr(bigStr(o.N, o.Row.Seed)))
 		if o.S == "Object" {
-			ob.Set(core.SuStr("named"), core.Unpack(o.Row.B))
+			ob.Set(core.SuStr("named"), core.Unpack(string(o.Row.B)))
 		}
 		return "exec " + valStr(d.Exec(th, ob))
 	}
@@ -873,6 +915,10 @@ func TestC40(t *testing.T) {
 	defer rec.Write()
 	defer leakReport(rec, 0)()
 
+	if p := os.Getenv("VERIF_REPLAY"); p != "" {
+		replay40(t, rec, p)
+		return
+	}
 	// (a failed part ends the run: shrinking three parts costs minutes)
 	if !rt.Check(t, rec, "differential", 400, 3000, func(t *rapid.T) { differential40(t, rec) }) {
 		return
@@ -883,7 +929,7 @@ func TestC40(t *testing.T) {
 	rt.Check(t, rec, "muxecho", 100, 1000, func(t *rapid.T) { muxEcho40(t, rec) })
 }
 
-func newSides(t *rapid.T, big bool, f frag) (loc, rem *side, srvL, srvR *server, c *client) {
+func newSides(big bool, f frag) (loc, rem *side, srvL, srvR *server, c *client) {
 	chunk := 1 << 17
 	if big {
 		chunk = 1 << 21
@@ -893,14 +939,14 @@ func newSides(t *rapid.T, big bool, f frag) (loc, rem *side, srvL, srvR *server,
 	c = srvR.connect(f)
 	thL := core.NewThread(nil)
 	thL.SetDbms(srvL.local)
-	loc = &side{name: "local", d: srvL.local, th: thL, sv: &core.Sviews{}, call: protect}
+	loc = &side{name: "local", d: srvL.local, th: thL, sv: &core.Sviews{}, call: protect, oneUpdate: true}
 	thL.SetSviews(loc.sv)
 	loc.barrier = func() { srvL.db.Transactions() }
 	newSes := func() core.IDbms { d, _ := c.newSession(); return d }
 	rd := newSes()
 	thR := core.NewThread(nil)
 	thR.SetDbms(rd)
-	rem = &side{name: "remote", d: rd, th: thR, call: c.call, newSes: newSes}
+	rem = &side{name: "remote", d: rd, th: thR, call: c.call, newSes: newSes, oneUpdate: true}
 	rem.barrier = func() { srvR.db.Transactions() }
 	rem.active = func() []int { return srvR.db.Transactions() }
 	return
@@ -914,7 +960,17 @@ func differential40(t *rapid.T, rec *ev.Rec) {
 	if gen.Chance(t, "limit probe", 8) {
 		limitProbe = gen.Pick(t, "probe size", []int{maxio - 4096, maxio - 64, maxio - 16, maxio - 8, maxio - 3, maxio, maxio + 1, maxio + 4096})
 	}
-	loc, rem, srvL, srvR, c := newSides(t, scriptNeedsBigStor(ops) || limitProbe > 0, f)
+	journal(journalCase{Sub: "differential", Ops: ops, Frag: f, LimitProbe: limitProbe})
+	runDifferential(t, rec, ops, f, limitProbe)
+}
+
+// fataler is what the oracle needs from *rapid.T / *testing.T.
+type fataler interface {
+	Fatalf(format string, args ...any)
+}
+
+func runDifferential(t fataler, rec *ev.Rec, ops []op, f frag, limitProbe int) {
+	loc, rem, srvL, srvR, c := newSides(scriptNeedsBigStor(ops) || limitProbe > 0, f)
 	defer srvL.close()
 	defer srvR.close()
 	defer c.close()
@@ -1072,12 +1128,21 @@ func concurrent40(t *rapid.T, rec *ev.Rec) {
 	ns := 2 + gen.Uniform(t, "sessions", 7)
 	f := genFrag().Draw(t, "frag")
 	scripts := make([][]op, ns)
-	big := false
 	for i := range scripts {
 		scripts[i] = sessionScript(t, i)
+	}
+	journal(journalCase{Sub: "concurrent", Scripts: scripts, Frag: f})
+	runConcurrent(t, rec, scripts, f)
+}
+
+func runConcurrent(t fataler, rec *ev.Rec, scripts [][]op, f frag) {
+	ns := len(scripts)
+	scripts = append([][]op(nil), scripts...)
+	big := false
+	for i := range scripts {
 		big = big || scriptNeedsBigStor(scripts[i])
 	}
-	loc, rem0, srvL, srvR, c := newSides(t, big, f)
+	loc, rem0, srvL, srvR, c := newSides(big, f)
 	defer srvL.close()
 	defer srvR.close()
 	defer c.close()
@@ -1320,4 +1385,47 @@ func diffLines(a, b string) string {
 	}
 	sort.Strings(out)
 	return strings.Join(out, "\n")
+}
+
+// journalCase is a case in replayable form.
+type journalCase struct {
+	Sub        string
+	Ops        []op   `json:",omitempty"`
+	Scripts    [][]op `json:",omitempty"`
+	Frag       frag
+	LimitProbe int
+}
+
+// journal writes the case about to run where the driver collects replay
+// artefacts: if the code under test kills the process (a panic on one of the
+// database's own goroutines, log.Fatal) this file is the failing case;
+// `./check --replay <file>` (VERIF_REPLAY) runs it again.
+func journal(jc journalCase) {
+	if rt.Replaying() {
+		return
+	}
+	b, err := json.Marshal(jc)
+	if err == nil {
+		os.WriteFile(rt.ReplayOut("C40_journal.json"), b, 0o644)
+	}
+}
+
+// replay40 re-runs a journalled case.
+func replay40(t *testing.T, rec *ev.Rec, path string) {
+	b, err := os.ReadFile(path)
+	if err != nil {
+		t.Fatal(err)
+	}
+	var jc journalCase
+	if err := json.Unmarshal(b, &jc); err != nil {
+		t.Fatalf("%s: %v", path, err)
+	}
+	switch jc.Sub {
+	case "differential":
+		runDifferential(t, rec, jc.Ops, jc.Frag, jc.LimitProbe)
+	case "concurrent":
+		runConcurrent(t, rec, jc.Scripts, jc.Frag)
+	default:
+		t.Fatalf("%s: unknown case kind %q", path, jc.Sub)
+	}
 }
